@@ -287,7 +287,7 @@ def oracle_c01(f, txn, r):
     text = G.render_rules(f)
     eng = ME.parse_merchants(text, 'first_match')
     t = txn_for_engine(txn)
-    gv = eng._evaluate_variables(copy.deepcopy(t))
+    gv = spec_globals(f, t)            # the file's variables evaluated by the harness (undefined where they cannot be evaluated)
     truth = [rule_truth(eng, rule, t, gv)[0] for rule in eng.rules]
     res = eng.match(copy.deepcopy(t))
     win = next((i for i, rule in enumerate(eng.rules) if truth[i] and rule.category), None)
@@ -330,7 +330,7 @@ def oracle_c02(f, txn, r):
     results = {}
     for mode in ('first_match', 'most_specific'):
         eng = ME.parse_merchants(text, mode)
-        gv = eng._evaluate_variables(copy.deepcopy(t))
+        gv = spec_globals(f, t)
         want = set()
         aligned = len(eng.rules) == len(f['rules']) and all(x.name == y['name'] for x, y in zip(eng.rules, f['rules']))
         sg = spec_globals(f, t)
@@ -373,15 +373,16 @@ PINNED_FUNCS = ['contains(', 'regex(', 'normalized(', 'startswith(', 'fuzzy(', '
 PINNED_KWS = ['amount', 'date', 'month', 'year', 'day', 'weekday', 'source', 'field.']
 
 
-def spec_key(rule):
+def spec_key(rule, written_priority=None):
     """The ranking the property states, computed without calling calculate_specificity:
-    (explicit priority, number of pattern conditions, number of constraint kinds, total pattern length)."""
+    (explicit priority — as WRITTEN in the file when the caller knows it, default 50 —, number of pattern conditions, number of
+    constraint kinds, total pattern length)."""
     e = rule.match_expr.lower()
     pats = sum(e.count(f) for f in PINNED_FUNCS)
     kinds = sum(1 for k in PINNED_KWS if k in e)
     length = sum(len(x) for x in re.findall(r'"([^"]*)"', rule.match_expr)) + \
         sum(len(x) for x in re.findall(r"'([^']*)'", rule.match_expr))
-    return (rule.priority, pats, kinds, length)
+    return (rule.priority if written_priority is None else written_priority, pats, kinds, length)
 
 
 def oracle_c09(f, txn, r):
@@ -390,10 +391,11 @@ def oracle_c09(f, txn, r):
     text = G.render_rules(f)
     t = txn_for_engine(txn)
     eng = ME.parse_merchants(text, 'most_specific')
-    gv = eng._evaluate_variables(copy.deepcopy(t))
+    gv = spec_globals(f, t)
     truth = [rule_truth(eng, rule, t, gv)[0] for rule in eng.rules]
     res = eng.match(copy.deepcopy(t))
-    keys = [spec_key(rule) for rule in eng.rules]
+    aligned = len(eng.rules) == len(f['rules']) and all(x.name == y['name'] for x, y in zip(eng.rules, f['rules']))
+    keys = [spec_key(rule, f['rules'][k].get('priority', 50) if aligned else None) for k, rule in enumerate(eng.rules)]
     cands = [i for i, rule in enumerate(eng.rules) if truth[i] and rule.category]
     if cands:
         best = cands[0]
@@ -459,6 +461,66 @@ def oracle_legacy(rows, txn):
                       'observed': (m, c, s), 'required': want,
                       'pattern_of_required_rule': file_rules[win][0] if win is not None else None})
     return fails
+
+
+CHAINED_VALUES = ['TX-PRJ-OPS', 'A:B:C', 'REF-REF-7731', 'xx-yy-zz', 'PROJ:ABC1 x', 'card']
+STEP_TRANSFORMS = [('field.memo', 'regex_replace(field.memo, "^[A-Za-z]+[:-]", "")'), ('field.code', 'regex_replace(field.code, "^(.)", "")'),
+                   ('field.memo', 'field.memo + "!"'), ('field.type', 'lowercase(field.type) + "."'), ('field.description', 'regex_replace(field.description, "^[A-Z]+ ", "")')]
+
+
+def cli_path_failures(r, b, n):
+    """The statement file read the way `tally up` reads it (parse_generic_csv with the rules file's transforms): every row is classified
+    as the same row handed to normalize_merchant directly — transforms applied ONCE, in file order, to a copy of the row's own columns."""
+    from tally import parsers, format_parser, merchant_utils as MU
+    fails, rows_seen = [], 0
+    for i in range(n):
+        txn = G.gen_txn(r)
+        lines, txns = [], []
+        for t in [txn] + txn_variants(r, txn, k=3):
+            if not t.get('date') or not t['amount']:
+                continue
+            cols = {k: r.choice(CHAINED_VALUES) if r.random() < 0.6 else v for k, v in ((k, (t.get('field') or {}).get(k, r.choice(CHAINED_VALUES))) for k in ('memo', 'type', 'code'))}
+            if any(c in str(x) for x in [t['description']] + list(cols.values()) for c in ',"\n'):
+                continue
+            txns.append((t, cols))
+            lines.append(f"{t['date'].isoformat()},{t['description']},{t['amount']!r},{cols['memo']},{cols['type']},{cols['code']}")
+        if not txns:
+            continue
+        f = G.gen_rules_file(r, txn, n=r.choice([2, 3, 4]))
+        f['transforms'] = r.sample(STEP_TRANSFORMS, r.choice([1, 2, 3]))
+        word = (cols['memo'].replace(':', '-').split('-') + ['x'])[1 if '-' in cols['memo'] or ':' in cols['memo'] else 0]
+        f['rules'].insert(0, {'name': 'ByColumn', 'match': r.choice([f'startswith(field.memo, "{word}")', f'contains(field.memo, "{word}")',
+                                                                       f'field.code == "{cols["code"][1:]}"', f'endswith_x' if False else f'contains(field.type, ".")']),
+                              'category': 'Column', 'subcategory': 'C', 'tags': ['{field.memo}']})
+        path = b.write(f'cli{i % 4}.rules', G.render_rules(f))
+        data = b.write(f'stmt{i % 4}.csv', 'Date,Description,Amount,Memo,Type,Code\n' + '\n'.join(lines) + '\n')
+        MU.clear_engine_cache()
+        try:
+            rules = MU.get_all_rules(path)
+            transforms = MU.get_transforms(path)
+            spec = format_parser.parse_format_string('{date:%Y-%m-%d},{description},{amount},{memo},{type},{code}')
+            got = parsers.parse_generic_csv(data, spec, rules, source_name='Bank', transforms=transforms)
+            if len(got) != len(txns):
+                continue                  # a row the parser rejects is C05's business
+            for g, (t, cols) in zip(got, txns):
+                rows_seen += 1
+                m, c, s2, info = MU.normalize_merchant(t['description'], rules, amount=t['amount'], txn_date=t['date'], field=dict(cols),
+                                                       data_source='Bank', transforms=transforms, location=g.get('location'))
+                want = (m, c, s2, sorted((info or {}).get('tags', [])))
+                have = (g['merchant'], g['category'], g['subcategory'], sorted(g.get('tags') or []))
+                if want != have:
+                    fails.append({'class': 'statement-row-classified-differently-from-the-same-row-alone', 'rules': G.render_rules(f),
+                                  'statement': 'Date,Description,Amount,Memo,Type,Code\n' + '\n'.join(lines) + '\n', 'row': jtxn(dict(t, field=cols)),
+                                  'observed (parse_generic_csv)': have, 'required (normalize_merchant on the row)': want})
+                    break
+        except Exception as e:       # noqa
+            if type(e).__name__ not in ('MerchantParseError',):
+                fails.append({'class': 'statement-path-raises', 'exception': type(e).__name__, 'message': str(e)[:200], 'rules': G.render_rules(f)})
+        finally:
+            MU.clear_engine_cache()
+        if fails:
+            break
+    return fails, rows_seen
 
 
 def txn_variants(r, txn, k=8):
@@ -657,7 +719,25 @@ def run(ctx, prop):
     if ctx.replay:
         rp = json.loads(common.read(ctx.replay))
         ce = rp.get('counterexample', {})
-        if 'sequence' in ce and 'file' in ce:
+        if ce.get('class') == 'statement-row-classified-differently-from-the-same-row-alone':
+            from tally import parsers, format_parser, merchant_utils as MU
+            with Budget() as b:
+                path = b.write('replay.rules', ce['rules'])
+                data = b.write('replay.csv', ce['statement'])
+                MU.clear_engine_cache()
+                rules, transforms = MU.get_all_rules(path), MU.get_transforms(path)
+                spec = format_parser.parse_format_string('{date:%Y-%m-%d},{description},{amount},{memo},{type},{code}')
+                for g in parsers.parse_generic_csv(data, spec, rules, source_name='Bank', transforms=transforms):
+                    raw = next(l for l in ce['statement'].split('\n')[1:] if l.split(',')[1] == g['raw_description'] and l.startswith(g['date'].strftime('%Y-%m-%d')))
+                    c = raw.split(',')
+                    m, cc, s2, info = MU.normalize_merchant(c[1], rules, amount=float(c[2]), txn_date=g['date'].date(),
+                                                            field={'memo': c[3], 'type': c[4], 'code': c[5]}, data_source='Bank',
+                                                            transforms=transforms, location=g.get('location'))
+                    if (m, cc, s2, sorted((info or {}).get('tags', []))) != (g['merchant'], g['category'], g['subcategory'], sorted(g.get('tags') or [])):
+                        corpus_fail.append(dict(ce))
+                        break
+                MU.clear_engine_cache()
+        elif 'sequence' in ce and 'file' in ce:
             replay_seq = (ce['file'], [untxn(x) for x in ce['sequence']], ce.get('mode', 'first_match'))
         elif 'file' in ce:
             items.append((ce['file'], untxn(ce['txn']), ce.get('mode', 'first_match')))
@@ -767,6 +847,11 @@ def run(ctx, prop):
                         raised += 1
                     else:
                         raise
+    if prop in ('C01', 'C02') and not ctx.replay:
+        with Budget() as b:
+            cf, nrows = cli_path_failures(r, b, 40 if ctx.quick else 1500)
+        prop_fail.extend(cf)
+        ctx.notes['statement_rows_through_parse_generic_csv_vs_normalize_merchant'] = nrows
     # --- run the model
     try:
         d = common.Driver()
